@@ -31,6 +31,7 @@ type Case struct {
 	Fuel  int    `json:"fuel,omitempty"`
 	WantT bool   `json:"wantToks,omitempty"`
 	WantA bool   `json:"wantAst,omitempty"`
+	Repeat int   `json:"repeat,omitempty"` // run the case this many times in this one process; report distinct observations
 }
 
 type Event struct {
@@ -68,6 +69,7 @@ type Result struct {
 	Steps    int         `json:"steps"`
 	StdinPos int64       `json:"stdinPos"`
 	Out2     string      `json:"out2,omitempty"`  // result of a pure helper (mode translit)
+	Variants []string    `json:"variants,omitempty"` // mode run with Repeat: observations that differ from the first run
 	Crash    string      `json:"crash,omitempty"` // set by the pool, never by the worker
 }
 
@@ -195,6 +197,14 @@ func workerMain() {
 				os.Exit(3)
 			}
 			r := w.runCase(&c)
+			for k := 1; k < c.Repeat; k++ {
+				r2 := w.runCase(&c)
+				if r2.Out != r.Out || r2.Err != r.Err || r2.Panic != r.Panic || r2.HadRT != r.HadRT || r2.HadErr != r.HadErr {
+					if len(r.Variants) < 4 {
+						r.Variants = append(r.Variants, fmt.Sprintf("run %d: out=%q err=%q panic=%q", k+1, r2.Out, r2.Err, firstLineOf(r2.Panic)))
+					}
+				}
+			}
 			enc.Encode(r)
 			wr.Flush() // every answer is flushed at once: a later fatal error must be attributed to the right case
 		}
@@ -342,3 +352,10 @@ func installSink(w *workerState) {
 }
 
 var _ = ast.Literal{}
+
+func firstLineOf(s string) string {
+	if i := strings.IndexByte(s, '\n'); i >= 0 {
+		return s[:i]
+	}
+	return s
+}
